@@ -142,6 +142,22 @@ def run_modes(cfg, prior_name, seq, poller=None):
             dev.settings[66:68] = bytes([0, 3])
         r.call(inv.get_operation_mode)
         r.call(inv.get_operation_mode)
+    between = None
+    if poller and poller.startswith('other-between:'):
+        # another inverter object of the family (own inverter, group 1 of ITS inverter holds another kind of schedule) reads
+        # its group between this object's setter and getter
+        from ..configs import make_rig as _mk2
+        r3 = _mk2(dict(cfg), fill=lambda a: 0, keep_world=True)
+        pri3 = (PRIORS_V2 if cfg['v2'] else PRIORS_V1).get(poller.split(':', 1)[1])
+        poller = None
+        if pri3 is not None:
+            r3.dev.rf.setbytes(a1, pri3)
+            if cfg['family'] == 'ET':
+                r3.dev.rf.set(47000, 3)
+            else:
+                r3.dev.settings[66:68] = bytes([0, 3])
+            r3.call(r3.inv.read_device_info)
+            between = r3
     for (m, p, soc) in seq:
         if m == 'FOREIGN':
             # somebody else (the vendor's app, another client) changed the mode meanwhile: another work mode, group 1 off
@@ -205,6 +221,9 @@ def run_modes(cfg, prior_name, seq, poller=None):
         n += 1
         if res[0] != 'ok':
             continue   # "after set_operation_mode succeeds": otherwise nothing to check
+        if between is not None:
+            between.call(between.inv.read_setting, 'eco_mode_1')
+            between.call(between.inv.get_operation_mode)
         got = r.call(inv.get_operation_mode)
         g1 = dev.rf.getbytes(a1, n1)
         ref = refdec.decode_schedule(g1) if cfg['v2'] else refdec.decode_eco_v1(g1)
@@ -259,12 +278,14 @@ def job_e2e(j):
     for seq in seqs:
         if prior_name == 'undecodable' and seq[0][0] not in (OM.ECO_CHARGE, OM.ECO_DISCHARGE):
             continue
-        if poller and poller != 'getter-first' and not (len(seq) == 1 and seq[0][0] in (OM.ECO_CHARGE, OM.ECO_DISCHARGE) and seq[0][1:] in ((55, 50), (9, 50))):
+        if poller and poller.startswith('other-between') and not (len(seq) == 1 and seq[0][0] in (OM.ECO_CHARGE, OM.ECO_DISCHARGE)):
+            continue
+        if poller and poller != 'getter-first' and not poller.startswith('other-between') and not (len(seq) == 1 and seq[0][0] in (OM.ECO_CHARGE, OM.ECO_DISCHARGE) and seq[0][1:] in ((55, 50), (9, 50))):
             continue
         vio, k = run_modes(cfg, prior_name, seq, poller)
         n += k
         for key, cause in vio:
-            kk = f"{key}/{cfg['name']}/prior:{prior_name}" + ('/after-a-getter-call' if poller == 'getter-first' else f"/while-polling:{poller.split('@')[0]}" if poller else '')
+            kk = f"{key}/{cfg['name']}/prior:{prior_name}" + ('/after-a-getter-call' if poller == 'getter-first' else f"/another-object-reads-between:{poller.split(':', 1)[1]}" if poller and poller.startswith('other-between') else f"/while-polling:{poller.split('@')[0]}" if poller else '')
             out.setdefault(kk, []).append(dict(key=kk, clause=key.split('/')[0],
                                                replay=dict(part='e2e', cfg=cfg, prior=prior_name, poller=poller,
                                                            seq=[[getattr(m, 'name', m), p, s] for m, p, s in seq]),
@@ -394,6 +415,9 @@ def run(tier, seed, rep):
             jobs.append((cfg, prior))
             jobs.append((cfg, prior, 'same'))
             jobs.append((cfg, prior, 'getter-first'))
+            if prior in ('off', 'charge'):
+                for other in (PRIORS_V2 if cfg['v2'] else PRIORS_V1):
+                    jobs.append((cfg, prior, f'other-between:{other}'))
             for pos in range(0, 16):
                 jobs.append((cfg, prior, f'same@{pos}'))
     n_e2e = 0
